@@ -1049,7 +1049,7 @@ DEFECTS = {
 }
 
 
-def _tlc_job(name, root, cfg, workers, extra=None, timeout=1500):
+def _tlc_job(name, root, cfg, workers, extra=None, timeout=1400):
     rd = tlc.new_rundir("c08-" + name)
     try:
         return name, tlc.run_tlc(rd, root, cfg, workers=workers, extra=extra or [], timeout=timeout)
@@ -1086,8 +1086,11 @@ def plan(tier: str) -> dict:
                ("ascoded-2c2m", AS_CODED, dict(nclients=2, nmsgs=2, replays=1, crashes=0, notfound=1, symmetry=True),
                 SAFETY_K, ACTIONP_K, 4)]
     else:
-        mc += [("ascoded-3c2m", AS_CODED, dict(nclients=3, nmsgs=2, replays=1, crashes=1, notfound=1, symmetry=True),
-                SAFETY_K, ACTIONP_K, 9),
+        # (3 clients x 2 messages WITH a crash is 23.1 M states / 9 min on 16 idle cores: run by hand once, passed)
+        mc += [("ascoded-3c2m", AS_CODED, dict(nclients=3, nmsgs=2, replays=1, crashes=0, notfound=1, symmetry=True),
+                SAFETY_K, ACTIONP_K, 8),
+               ("ascoded-2c2m-c2r2", AS_CODED, dict(nclients=2, nmsgs=2, replays=2, crashes=2, notfound=1, delayed=True,
+                                                    symmetry=True), SAFETY_K, ACTIONP_K, 5),
                ("ascoded-3c1m-q3", AS_CODED, dict(nclients=3, nmsgs=1, replays=2, crashes=1, notfound=1, qmax=3,
                                                   delayed=True, symmetry=True), SAFETY_K, ACTIONP_K, 4),
                ("intended-2c2m-fifo-r2", INTENDED, dict(nclients=2, nmsgs=2, replays=2, crashes=2, notfound=1, fifo=True,
@@ -1119,7 +1122,7 @@ def plan(tier: str) -> dict:
     if os.environ.get("VERIF_C08_BINDING_ONLY"):     # development aid (mutation runs): skip pure model checking
         mc, live = [], []
     return {"mc": mc, "live": live, "graphs": graphs,
-            "replay_budget_s": 30 if q else 560, "random_traces": 160 if q else 1600, "random_steps": 80 if q else 120}
+            "replay_budget_s": 25 if q else 480, "random_traces": 160 if q else 1600, "random_steps": 80 if q else 120}
 
 
 def run(pid: str, tier: str, seed: int) -> int:
@@ -1206,23 +1209,41 @@ def run(pid: str, tier: str, seed: int) -> int:
                         {"kind": "labels", "clients": clients, "nmsgs": info["cex"]["nmsgs"], "labels": labs,
                          "switches": dict(AS_CODED), "formula": formula, "qmax": info["qmax"]})
                 continue
-            sw2 = dict(AS_CODED)
+            # Not (fully) as coded.  Judge again relative to the switches calibrated so far: the history is
+            # explained by the repaired model if that model matches a longer prefix (the steps behind the
+            # distinguishing one were chosen for the as-coded model and mean nothing for the other).
+            def prefix(vv):
+                return len(tr["events"]) + 1 if vv["accepted"] == 1 else vv["rejected"][0]["at"]
+
+            vb = v if switches == AS_CODED else judge((d, info, labs, clients, tr), switches)
+            if vb["accepted"] == 1 and not tr["diverged"] and (info.get("observation") or [f for f in vb["failed"] if d in f["flags"]]):
+                entry["confirmed_on_code"] = True
+                entry["history"] = [f"{x['a']}({x['c']},{x['arg']})" for x in labs]
+                if not info.get("observation"):
+                    for formula in sorted({f["formula"] for f in vb["failed"] if d in f["flags"]}):
+                        rep.violation(f"{formula} fails on the real SqliteQueue along TLC's counter-example for defect '{d}'",
+                                      {"formula": formula, "flags": [d], "history": labs, "source": "model-cex-on-code"},
+                                      {"kind": "labels", "clients": clients, "nmsgs": info["cex"]["nmsgs"], "labels": labs,
+                                       "switches": dict(switches), "formula": formula, "qmax": info["qmax"]})
+                continue
+            sw2 = dict(switches)
             sw2[info["switch"]] = info["fixed"]
             v2 = judge((d, info, labs, clients, tr), sw2)
-            if v2["accepted"] == 1 and not tr["diverged"] and not [f for f in v2["failed"] if d in f["flags"]]:
+            if not vb["machinery"] and not v2["machinery"] and prefix(v2) > prefix(vb):
                 entry["confirmed_on_code"] = False
-                entry["note"] = "the code follows the REPAIRED model for this defect; switch flipped for the binding"
+                entry["note"] = (f"the code follows the REPAIRED model for this defect (as coded matches {prefix(vb) - 1} steps, "
+                                 f"repaired {prefix(v2) - 1}); switch flipped for the binding")
                 switches[info["switch"]] = info["fixed"]
                 print(f"NOTE: recorded defect {d} is not reproduced; the code follows the repaired specification")
             else:
-                rj = (v["rejected"] or [{}])[0]
+                rj = (vb["rejected"] or [{}])[0]
                 e = rj.get("event") or {}
                 rep.violation(f"the real SqliteQueue follows Queue.tla neither as coded nor as repaired along TLC's shortest "
                               f"history for '{d}': {tr['diverged'] or ''} step {rj.get('at')} {e.get('a')}({e.get('c')},"
                               f"{e.get('arg')}) -> {e.get('ret')}",
                               {"formula": "Conformance", "flags": [], "history": labs, "source": "model-cex-on-code"},
                               {"kind": "labels", "clients": clients, "nmsgs": info["cex"]["nmsgs"], "labels": labs,
-                               "switches": dict(AS_CODED), "formula": "Conformance", "qmax": info["qmax"]})
+                               "switches": dict(switches), "formula": "Conformance", "qmax": info["qmax"]})
         cov["switches_used_for_binding"] = dict(switches)
 
         # ---- graph exports (need the calibrated switches) ---------------------------------------------
@@ -1391,7 +1412,7 @@ def run(pid: str, tier: str, seed: int) -> int:
                     rep.machinery_failure(f"TLC failed on {name}: " + "\n".join(r.errors[:3]) + r.out[-800:])
                 else:
                     dead = [a for a in ACTIONS if ac.get(a, 0) == 0 and not (a == "LeaseLapse" and sw is INTENDED)]
-                    if name.startswith(("ascoded-2c2m", "ascoded-3c2m", "intended-3c")) and dead:   # vacuity
+                    if name in ("ascoded-3c1m-q3", "ascoded-2c2m-c2r2", "intended-3c2m") and dead:   # vacuity
                         rep.machinery_failure(f"vacuity: actions never taken in {name}: {dead}")
             elif kind == "live":
                 _, r = fut.result()
